@@ -2,7 +2,7 @@
    Only statements, [exact] and [Print Assumptions] live here. *)
 From Coq Require Import List Arith Bool NArith.
 From GV Require Import Base.Result Gen.TokenTypes Gen.Defs Gen.Instr Model.Parser Model.BuilderWL Model.Compile
-  Spec.WfCode Spec.Reloc Proofs.C05.Known Proofs.C05.Bounded Proofs.C05.Refuted Proofs.C20.Bounded Proofs.C20.Refuted Proofs.C05.Operands Proofs.C05.Jumps Proofs.C20.Frame Proofs.C20.FrameFull.
+  Spec.WfCode Spec.Reloc Proofs.C05.Known Proofs.C05.Bounded Proofs.C05.Refuted Proofs.C20.Bounded Proofs.C20.Refuted Proofs.C05.Operands Proofs.C05.Jumps Proofs.C05.Bodies Proofs.C20.Frame Proofs.C20.FrameFull Proofs.C20.Relocate Proofs.C20.LastInstr Proofs.C20.RelocFull.
 Import ListNotations.
 
 (* relocation + frame, bounded: building after another program (initial states
@@ -77,9 +77,45 @@ Proof.
 Qed.
 Print Assumptions C20_frame_full.
 
+(* relocation, inductive, for EVERY tree and EVERY initial state (no exclusion):
+   building into a data object that holds di instructions and dj jump entries
+   and whose last instruction is L is building into an object with empty tables
+   and last instruction L, relocated -- instruction indices (jump-entry
+   targets) by di, jump-table indices (jump operands, expression values, the
+   entry) by dj; an unpatched placeholder stays 0 on both sides *)
+Theorem C20_relocation_all_trees : forall init lit t,
+  compile init lit t = shRes (shR init) (compile (init0 init) lit t).
+Proof. exact compile_shift. Qed.
+Print Assumptions C20_relocation_all_trees.
+
+(* the last instruction L is read only to decide whether the EndExpression of a
+   first body that emitted nothing is a repetition: outside C20-K1 the build is
+   the build into the EMPTY data object, relocated *)
 Definition C20_relocation_full_statement : Prop :=
-  forall t init lit r,
+  forall t init lit,
     ~ Known_C20_K1 init t ->
-    compile init lit t = Ok r ->
-    exists r0, compile empty_init lit t = Ok r0 /\
-               relocated init (code_of_compile r0) (code_of_compile r) = true.
+    compile init lit t = shRes (shR init) (compile empty_init lit t).
+
+Theorem C20_relocation_full : C20_relocation_full_statement.
+Proof.
+  intros t init lit Hk. apply compile_relocates.
+  destruct (empty_after_end init t) eqn:E; [exfalso; apply Hk; exact E | reflexivity].
+Qed.
+Print Assumptions C20_relocation_full.
+
+(* ... and outside C05-K1 / C05-K2 (no placeholder survives) that is exactly
+   Spec.Reloc.relocated *)
+Theorem C20_relocated_full : forall nodes root t init lit r r0,
+  tree_of nodes root = Some t ->
+  ~ Known_C05_K1 init t -> ~ Known_C05_K2 t ->
+  compile init lit t = Ok r -> compile empty_init lit t = Ok r0 ->
+  relocated init (code_of_compile r0) (code_of_compile r) = true.
+Proof.
+  intros nodes root t init lit r r0 Ht Hk1 Hk2 Hc Hc0.
+  apply (compile_relocated nodes init lit t r r0 (tree_of_in nodes root t Ht)); auto.
+  - split.
+    + destruct (drops_arms t) eqn:E; [exfalso; apply Hk2; exact E | reflexivity].
+    + destruct (has_empty_body t) eqn:E; [exfalso; apply Hk1; left; exact E | reflexivity].
+  - destruct (empty_after_end init t) eqn:E; [exfalso; apply Hk1; right; exact E | reflexivity].
+Qed.
+Print Assumptions C20_relocated_full.
